@@ -9,7 +9,8 @@ statement about "the" timer below is a theorem.
 
 All statements are for every configuration (table, durations, conditions, entry actions) and every
 sequence of operations (initialisation, events placed before/after the timers of their instant,
-clock advances, changes of the environment flag, stop) — `run c {} ops`, no bound on the length.
+clock advances, changes of the environment flag, stop, and the restoring of a saved state with a `calc_output()`
+that works, raises or returns UNDEF) — `run c {} ops`, no bound on the length.
 -/
 import EdzedModel.FsmTimer
 import EdzedProofs.FsmTimer
@@ -176,6 +177,88 @@ theorem entering_arms_timer (c : Cfg) (s : St) (d : EvData) (q : String)
   rcases es.timer with h | ⟨⟨h, hl, ha, he, hw, _, hq⟩, _⟩
   · exact .inl h
   · exact .inr ⟨h, hl, ha, he, hw, hq⟩
+
+/-! ### restoring a saved state (`_restore_state`) -/
+
+/-- **restore_failure_leaves_no_timer**: for every configuration, every state the simulation can be in when it
+    restores a block (not aborted, the block not initialised) and every saved state `(q, exp, sdata)`: when
+    `calc_output()` raises or yields UNDEF for the restored state -- i.e. whenever it does not deliver an output --
+    the block is still not initialised afterwards, `_active_timer` is None and no handle of the FSM is pending in
+    the loop.  (`hcalc` holds by definition for the modes `raises` and `undef`, see the examples below.) -/
+theorem restore_failure_leaves_no_timer (c : Cfg) (ops : List Op) (q : String) (exp : Option Nat)
+    (sd : Option Val) (m : CalcMode)
+    (hf : (run c {} ops).failed = none) (hu : (run c {} ops).out.isUndef = true)
+    (hcalc : ∀ v, calcFor c (((run c {} ops).enter q).setInput sd) m = some v → v.isUndef = true) :
+    (step c (run c {} ops) (.restore q exp sd m)).1 = (restore c (run c {} ops) q exp sd m).1 ∧
+    (restore c (run c {} ops) q exp sd m).1.out.isUndef = true ∧
+    (restore c (run c {} ops) q exp sd m).1.active = none ∧
+    live (restore c (run c {} ops) q exp sd m).1 = [] := by
+  have i := inv_run c ops {} (inv_init c)
+  generalize run c {} ops = s at hf hu hcalc i
+  have hund : (restore c s q exp sd m).1.out.isUndef = true := by
+    rcases restore_out c s q exp sd m hu with h | ⟨_, h⟩
+    · exact h
+    · exact hcalc _ h
+  have sp := restore_spec i hf hu q exp sd m
+  have hi := sp.2.2.2.2.2.2.2 hund
+  refine ⟨?_, hund, hi.2, hi.1⟩
+  simp [step, hf, hu]
+
+/-- **restore_then_goto_has_one_live_timer**: after a restore -- failed or not -- followed by the initialisation
+    `init_from_value(initdef)` = `Goto(initdef)`, at most one handle is pending, it is the active one, and it belongs
+    to the current visit of the current state (it carries that state's timed event).  With the order of statements
+    `_restore_state` had before the repair this is FALSE: see `restoreOld` and the example below. -/
+theorem restore_then_goto_has_one_live_timer (c : Cfg) (ops : List Op) (q : String) (exp : Option Nat)
+    (sd : Option Val) (m : CalcMode) :
+    (live (run c {} (ops ++ [.restore q exp sd m, .init])) = [] ∧
+      (run c {} (ops ++ [.restore q exp sd m, .init])).active = none) ∨
+    ∃ h, live (run c {} (ops ++ [.restore q exp sd m, .init])) = [h] ∧
+      (run c {} (ops ++ [.restore q exp sd m, .init])).active = some h.id ∧
+      h.epoch = (run c {} (ops ++ [.restore q exp sd m, .init])).epoch ∧
+      ∃ q' dflt, (run c {} (ops ++ [.restore q exp sd m, .init])).state = some q' ∧
+        c.tbl.timedOf q' = some (h.ev, dflt) := by
+  rcases (inv_run c (ops ++ [.restore q exp sd m, .init]) {} (inv_init c)).timer with h | ⟨h, hl, ha, he, _, _, hq⟩
+  · exact .inl h
+  · exact .inr ⟨h, hl, ha, he, hq⟩
+
+/-- the hypotheses are satisfiable and the statements not empty: `Timer(t_on=5s, initdef='on')`, saved state
+    `('on', expiry in 100 s)`, `calc_output()` raises (or returns UNDEF) during the restore: no timer afterwards, and
+    after the initdef exactly one, due 5 s from now; a successful restore keeps the saved expiry -/
+example :
+    (∀ v, calcFor (timerCfg (.us 5000000) .none true "on") ((({} : St).enter "on").setInput none) .raises = some v →
+      v.isUndef = true) ∧
+    (∀ v, calcFor (timerCfg (.us 5000000) .none true "on") ((({} : St).enter "on").setInput none) .undef = some v →
+      v.isUndef = true) ∧
+    (let s := run (timerCfg (.us 5000000) .none true "on") {} [.restore "on" (some 100000000) none .raises]
+     s.state = some "on" ∧ s.out.isUndef = true ∧ live s = [] ∧ s.active = none) ∧
+    (let s := run (timerCfg (.us 5000000) .none true "on") {} [.restore "on" (some 100000000) none .raises, .init]
+     (live s).map (fun h => (h.id, h.when)) = [(0, 5000000)] ∧ s.out = .bool true) ∧
+    (let s := run (timerCfg (.us 5000000) .none true "on") {} [.restore "on" (some 100000000) none .undef, .init]
+     (live s).map (fun h => (h.id, h.when)) = [(0, 5000000)]) ∧
+    (let s := run (timerCfg (.us 5000000) .none true "on") {} [.restore "on" (some 100000000) none .normal]
+     (live s).map (fun h => (h.id, h.when)) = [(0, 100000000)] ∧ s.out = .bool true) := by
+  refine ⟨by intro v h; simp [calcFor] at h, by intro v h; simp [calcFor] at h; rw [← h]; rfl, ?_⟩
+  decide +kernel
+
+/-- **the finding, machine-checked**: with the statement order `_restore_state` had BEFORE the repair (`restoreOld`:
+    timer first, then state and `calc_output()`), the same scenario ends with TWO live handles: the one armed by
+    the failed restore (id 0, due at 100 s) is orphaned -- `_active_timer` points to the new one (id 1) -- it
+    survives `stop()`, and when the clock reaches its expiry it fires into the FSM: the Timer switched on at 99 s
+    (due off at 104 s) gets a stale `stop` at 100 s, and as `_timer_expired` forgets `_active_timer`, the handle for
+    104 s is not cancelled either and stays pending in state `off`.  `restore_then_goto_has_one_live_timer` is
+    false for `restoreOld`. -/
+example :
+    (let s := (initOp (timerCfg (.us 5000000) .none true "on")
+        (restoreOld (timerCfg (.us 5000000) .none true "on") {} "on" (some 100000000) none .raises).1).1
+     (live s).map (fun h => (h.id, h.when)) = [(0, 100000000), (1, 5000000)] ∧ s.active = some 1 ∧
+     (live (stop s)).map (fun h => (h.id, h.when)) = [(0, 100000000)]) ∧
+    (let s := run (timerCfg (.us 5000000) .none true "on")
+        (initOp (timerCfg (.us 5000000) .none true "on")
+          (restoreOld (timerCfg (.us 5000000) .none true "on") {} "on" (some 100000000) none .raises).1).1
+        [.ev 99000000 .after (.ev "start") {}, .advance 100000000]
+     (fires s.log).map (fun x => (x.1, x.2.1.id, x.2.1.ev)) = [(5000000, 1, .ev "stop"), (100000000, 0, .ev "stop")] ∧
+     s.state = some "off" ∧ (live s).map (fun h => (h.id, h.when)) = [(2, 104000000)]) := by
+  decide +kernel
 
 /-! ### the library blocks, over the tables generated from the source -/
 
@@ -797,8 +880,10 @@ example :
 /-- `_restore_state` (C06's subject, the same translated program): run on the meaning the primitives have in
     the model of persistent state it computes exactly `Persist.restore` for the FSM kind -- unknown state
     refused, remaining time = expiry - now, an expired state ignored (nothing restored), "cannot set a timer
-    for a not timed state", the timer re-armed for the saved expiry by the translated `_set_timer`, then state,
-    sdata and output (assuming `calc_output` does not return UNDEF for the saved state) -/
+    for a not timed state", then state, sdata and output, the timer re-armed for the saved expiry by the
+    translated `_set_timer` once `calc_output` has delivered the output (assuming `calc_output` does not return
+    UNDEF for the saved state); a restore that raises must not leave a timer behind (`restoreOutcome`) -- with the
+    statement order before the repair (timer first) this theorem is false -/
 theorem translated_fsmtimer_restore_is_persist_model (c : Persist.FsmCls) (cal : Val → Option Bool)
     (now : Nat) (st : String) (exp : Option Nat) (sd : Data)
     (hout : ∀ o, c.calcOut st sd = some o → o.isUndef = false) :
@@ -829,6 +914,57 @@ theorem translated_fsmtimer_restore_is_persist_model (c : Persist.FsmCls) (cal :
       · have htn : now + ((t : Int) - (now : Int)).toNat = t := by omega
         cases hte : c.timedEv st <;> rtsimp [restoreOutcome, Persist.restore, hst, hco, hz, hle, hte, ho, htn]
         exact Nat.add_sub_of_le (Nat.le_of_lt (Nat.lt_of_not_le hle))
+
+/-- result of `_restore_state` as the model reports it -/
+def resExc : Res → Except ErrKind Unit
+  | .err k => .error k
+  | _ => .ok ()
+
+/-- `_restore_state` run on the model's meaning of the event loop and of the block computes exactly the model's
+    `restore` -- for every configuration, block state, saved state `(q, exp, sdata)` (the expiry as a wall-clock time
+    stamp) and every behaviour of `calc_output()`: unknown state refused, an expired state ignored, "cannot set a
+    timer for a not timed state", then state and sdata assigned, and the timer started by the translated
+    `_set_timer` ONLY when `calc_output()` has returned an output (not when it raises: the exception propagates with
+    state and sdata assigned and no timer; not when it returns UNDEF) -/
+theorem translated_fsmtimer_restore_is_model (c : Cfg) (env : TEnv) (q : String) (exp : Option Nat)
+    (sd : Option Val) (t : TSt) (hf : t.st.failed = none) :
+    Gen.TrT.restoreState (tprims c env) (q, exp.map (· + env.wall), sd) t
+      = (t.map (fun s => (FsmTimer.restore c s q exp sd env.calcMode).1),
+         resExc (FsmTimer.restore c t.st q exp sd env.calcMode).2) := by
+  unfold Gen.TrT.restoreState restoreStateBody
+  by_cases hst : q ∈ c.tbl.states
+  rotate_left
+  · ttsimp [FsmTimer.restore, hst, resExc]
+  cases exp with
+  | none =>
+    cases hc : calcFor c ((t.st.enter q).setInput sd) env.calcMode with
+    | none => ttsimp [FsmTimer.restore, restoreTail, hst, resExc, hc] 
+    | some v =>
+      cases hv : v.isUndef with
+      | true => ttsimp [FsmTimer.restore, restoreTail, hst, resExc, hc, hv]
+      | false =>
+        have hfs : (setOut ((t.st.enter q).setInput sd) v).failed = none := by
+          rw [(setOut_fields _ _).1]; exact hf
+        ttsimp [FsmTimer.restore, restoreTail, hst, resExc, hc, hv, hfs]
+  | some w =>
+    have hz : ((w : Int) + (env.wall : Int) - ((t.st.now : Int) + (env.wall : Int)) ≤ 0) ↔ w ≤ t.st.now := by omega
+    by_cases hle : w ≤ t.st.now
+    · ttsimp [FsmTimer.restore, hst, resExc, hle, hz, cmpInt]
+    cases hte : c.tbl.timedOf q with
+    | none => ttsimp [FsmTimer.restore, hst, resExc, hle, hz, cmpInt, hte]
+    | some ed =>
+      obtain ⟨ev, dflt⟩ := ed
+      have hn : ((w : Int) + (env.wall : Int) - ((t.st.now : Int) + (env.wall : Int))).toNat = w - t.st.now := by omega
+      cases hc : calcFor c ((t.st.enter q).setInput sd) env.calcMode with
+      | none => ttsimp [FsmTimer.restore, restoreTail, hst, resExc, hle, hz, cmpInt, hte, hc]
+      | some v =>
+        cases hv : v.isUndef with
+        | true => ttsimp [FsmTimer.restore, restoreTail, hst, resExc, hle, hz, cmpInt, hte, hc, hv]
+        | false =>
+          have hfs : (setOut (FsmTimer.setTimer ((t.st.enter q).setInput sd) (w - t.st.now) ev) v).failed = none := by
+            rw [(setOut_fields _ _).1, (setTimer_fields _ _ _).2.2.2.2.2.1]; exact hf
+          ttsimp [FsmTimer.restore, restoreTail, hst, resExc, hle, hz, cmpInt, hte, hc, hv,
+            translated_fsmtimer_set_timer_is_model, hn, hfs]
 
 end Edzed.TrTie
 
